@@ -128,8 +128,14 @@ fn canary_gate_rejects_all_epoch0() {
     assert!(inner.try_decrypt_record(&rec, &ctx, kani::any()).is_err());
 }
 
-/// RFC 5246 6.2.3.3 / RFC 6347 4.1.2.1: additional data = seq_num(8, epoch||seq) || type || version(2) || length(2)
-#[kani::proof]
+/// in-place contract predicate — RFC 5246 6.2.3.3 / RFC 6347 4.1.2.1:
+/// additional data = seq_num(8, epoch||seq) || type || version(2) || length(2)
+pub(crate) fn post_make_aad(seq: u64, ct: ContentType, v: ProtocolVersion, len: usize, a: &[u8; 13]) -> bool {
+    let s = seq.to_be_bytes();
+    a[..8] == s[..] && a[8] == ct as u8 && a[9] == v.major && a[10] == v.minor
+        && a[11] == (len >> 8) as u8 && a[12] == (len & 0xff) as u8
+}
+#[kani::proof_for_contract(make_aad)]
 fn c03_make_aad_spec() {
     let seq: u64 = kani::any();
     let ct = any_content_type();
@@ -137,9 +143,7 @@ fn c03_make_aad_spec() {
     let len: usize = kani::any();
     kani::assume(len <= 0xFFFF);
     let a = make_aad(seq, ct, v, len);
-    let s = seq.to_be_bytes();
-    assert!(a[..8] == s[..] && a[8] == ct as u8 && a[9] == v.major && a[10] == v.minor
-        && a[11] == (len >> 8) as u8 && a[12] == (len & 0xff) as u8);
+    assert!(post_make_aad(seq, ct, v, len, &a));
 }
 
 /// decrypt_record_with_cipher: Ok(p) iff the AEAD opens with nonce = iv(4)||payload[0..8],
